@@ -13,7 +13,7 @@
 (* sequential library is its return.  MC_* modules instantiate the menus   *)
 (* and compose the actions into bounded scenarios / sessions.              *)
 (***************************************************************************)
-EXTENDS Menus, Json
+EXTENDS Moments, Json
 
 VARIABLES heap, hist
 vars == <<heap, hist>>
@@ -27,7 +27,13 @@ NoObj == <<>>
 \* with them by the replay harness whenever the code object exposes them.)
 \* In these records every integer is a field element, except under key k.
 \* ------------------------------------------------------------------------
+ExpectCond(c) ==
+    LET R == CR(c) ID == MkSeq(R, LAMBDA i : InvDet(c.Sig[i])) IN
+    [cls |-> c.cls, M |-> c.M, b |-> c.b, Sig |-> c.Sig,
+     Lam |-> MkSeq(R, LAMBDA i : ID[i].inv), dSig |-> MkSeq(R, LAMBDA i : ID[i].det)]
+
 ExpectObj(o) ==
+    IF IsCond(o) THEN ExpectCond(o) ELSE
     IF IsMeasure(o)
     THEN LET R == NumR(o)
              T == MkSeq(R, LAMBDA i : Truth(o, i))
@@ -71,6 +77,25 @@ ANewPdf(cls, mode, d, R, s) ==
     IN Emit(Append(heap, o),
             Step("NewPdf", [cls |-> cls, mode |-> mode, Sigma |-> qS, mu |-> qm],
                  [Lambda |-> Li, dSig |-> dS],
+                 NextId, ExpectObj(o), 0, NoObj, NoObj))
+
+\* exact mode of C03: integer covariance and mean (every polynomial moment is an integer)
+SPDINT(d) ==
+    CASE d = 1 -> << Q(<<<<2>>>>, 1), Q(<<<<1>>>>, 1), Q(<<<<3>>>>, 1) >>
+      [] d = 2 -> << Q(<< <<2, 1>>, <<1, 2>> >>, 1), Q(<< <<3, -1>>, <<-1, 1>> >>, 1), Q(<< <<5, 2>>, <<2, 1>> >>, 1) >>
+      [] d = 3 -> << Q(<< <<2, 1, 0>>, <<1, 2, 1>>, <<0, 1, 2>> >>, 1), Q(<< <<3, -1, 1>>, <<-1, 2, 0>>, <<1, 0, 1>> >>, 1),
+                     Q(<< <<2, 0, 1>>, <<0, 1, 0>>, <<1, 0, 3>> >>, 1) >>
+VECINT(d) ==
+    CASE d = 1 -> << Q(<<1>>, 1), Q(<<-2>>, 1), Q(<<3>>, 1) >>
+      [] d = 2 -> << Q(<<1, -1>>, 1), Q(<<-2, 3>>, 1), Q(<<0, 2>>, 1) >>
+      [] d = 3 -> << Q(<<1, -1, 2>>, 1), Q(<<-2, 3, 1>>, 1), Q(<<0, 2, -1>>, 1) >>
+
+ANewPdfInt(d, R, s) ==
+    LET qS == Pick(SPDINT(d), R, s)
+        qm == Pick(VECINT(d), R, s)
+        o  == NewPdf(MkSeq(R, LAMBDA i : QM(qS[i])), MkSeq(R, LAMBDA i : QV(qm[i])))
+    IN Emit(Append(heap, o),
+            Step("NewPdf", [cls |-> "PDF", mode |-> "S", Sigma |-> qS, mu |-> qm, exact |-> TRUE], NoObj,
                  NextId, ExpectObj(o), 0, NoObj, NoObj))
 
 ANewFactor(cls, d, R, s) ==
@@ -163,6 +188,186 @@ AEvaluate(i, X, elementwise, via) ==
                          ELSE MkSeq(R, LAMBDA r : MkSeq(Len(X), LAMBDA n : EvalLn(o, r, X[n])))]))
 
 \* ------------------------------------------------------------------------
+\* Densities
+\* ------------------------------------------------------------------------
+\* coordinate sequences are 1-based in the specification; the code is called with idx - 1
+Minus1(s) == [k \in 1..Len(s) |-> s[k] - 1]
+
+AMarginal(i, dims) ==
+    LET p == heap[i] n == Marginal(p, dims) IN
+    /\ IsPdf(p)
+    /\ Emit(Append(heap, n), Step("Marginal", [i |-> i, dims |-> Minus1(dims)], NoObj, NextId, ExpectObj(n), 0, NoObj, NoObj))
+
+\* W, b: exact menu records per component; bmode in {"none", "given"}
+ALinearSum(i, qW, qb, bmode) ==
+    LET p == heap[i] R == NumR(p)
+        W == MkSeq(R, LAMBDA r : QM(qW[r]))
+        b == MkSeq(R, LAMBDA r : IF bmode = "none" THEN ZeroVec(Rows(W[r])) ELSE QV(qb[r]))
+        n == LinearSum(p, W, b)
+    IN /\ IsPdf(p)
+       /\ Emit(Append(heap, n), Step("LinearSum", [i |-> i, W |-> qW, b |-> qb, bmode |-> bmode], NoObj,
+                                     NextId, ExpectObj(n), 0, NoObj, NoObj))
+
+AEntropy(i) ==
+    LET p == heap[i] IN
+    /\ IsPdf(p)
+    /\ Emit(heap, Step("Entropy", [i |-> i], NoObj, 0, NoObj, 0, NoObj,
+                       [ln |-> MkSeq(NumR(p), LAMBDA r : EntropySem(p, r))]))
+
+\* p.kl_divergence(q): R_p = R_q, or one of them 1 (broadcast)
+AKL(i, j) ==
+    LET p == heap[i] q == heap[j] R1 == NumR(p) R2 == NumR(q) IN
+    /\ IsPdf(p) /\ IsPdf(q) /\ NumD(p) = NumD(q)
+    /\ R1 = R2 \/ R1 = 1 \/ R2 = 1
+    /\ Emit(heap, Step("KL", [i |-> i, j |-> j], NoObj, 0, NoObj, 0, NoObj,
+                       [ln |-> MkSeq(Max(R1, R2), LAMBDA k :
+                                  KLSem(p, IF R1 = 1 THEN 1 ELSE k, q, IF R2 = 1 THEN 1 ELSE k))]))
+
+AUpdate(i, idx, j) ==
+    LET p == heap[i] q == heap[j] p1 == Update(p, idx, q) IN
+    /\ IsPdf(p) /\ IsPdf(q) /\ NumD(p) = NumD(q) /\ Len(idx) = NumR(q)
+    /\ Emit(Put(i, p1), Step("Update", [i |-> i, idx |-> Minus1(idx), j |-> j], NoObj, 0, NoObj, i, ExpectObj(p1), NoObj))
+
+AConditionOn(i, dy) ==
+    LET p == heap[i] c == ConditionOn(p, dy) IN
+    /\ IsPdf(p)
+    /\ Emit(Append(heap, c), Step("ConditionOn", [i |-> i, dy |-> Minus1(dy)], NoObj, NextId, ExpectObj(c), 0, NoObj, NoObj))
+
+AConditionOnExplicit(i, dy, dx) ==
+    LET p == heap[i] c == ConditionOnExplicit(p, dy, dx) IN
+    /\ IsPdf(p)
+    /\ Emit(Append(heap, c), Step("ConditionOnExplicit", [i |-> i, dy |-> Minus1(dy), dx |-> Minus1(dx)], NoObj,
+                                  NextId, ExpectObj(c), 0, NoObj, NoObj))
+
+\* ------------------------------------------------------------------------
+\* Linear-Gaussian conditionals
+\* ------------------------------------------------------------------------
+\* M menu: integer matrices [dy x dx], distinct per component, asymmetric
+MMenu(dy, dx) ==
+    << Q([a \in 1..dy |-> [b \in 1..dx |-> IF a = b THEN 2 ELSE IF a < b THEN 1 ELSE -1]], 1),
+       Q([a \in 1..dy |-> [b \in 1..dx |-> IF a = b THEN 1 ELSE IF a < b THEN -2 ELSE 1]], 2),
+       Q([a \in 1..dy |-> [b \in 1..dx |-> IF a + b = 3 THEN 3 ELSE IF a < b THEN 1 ELSE 2]], 3),
+       Q([a \in 1..dy |-> [b \in 1..dx |-> 0]], 1) >>
+
+\* cls in CondClasses; mode in {"S", "L", "SLD"}; bmode in {"none", "given"} (b omitted -> zeros); m0: offset into MMenu
+ANewCond(cls, mode, bmode, dy, dx, R, s, m0) ==
+    LET isId == IsIdCond(cls)
+        qM == Pick(MMenu(dy, dx), R, m0)
+        qb == Pick(VEC2(dy), R, s)
+        qS == Pick(IF IsDiagCond(cls) THEN DPD(dy) ELSE SPD(dy), R, s)
+        M  == MkSeq(R, LAMBDA i : IF isId THEN Eye(dy) ELSE QM(qM[i]))
+        b  == MkSeq(R, LAMBDA i : IF isId \/ bmode = "none" THEN ZeroVec(dy) ELSE QV(qb[i]))
+        Mat == MkSeq(R, LAMBDA i : QM(qS[i]))       \* Sigma (modes S, SLD) or Lambda (mode L)
+        ID == MkSeq(R, LAMBDA i : InvDet(Mat[i]))
+        c  == NewCond(cls, mode, M, b, Mat, MkSeq(R, LAMBDA i : ID[i].inv), MkSeq(R, LAMBDA i : ID[i].det))
+    IN /\ isId => dy = dx
+       /\ Emit(Append(heap, c),
+               Step("NewCond", [cls |-> cls, mode |-> mode, bmode |-> bmode, M |-> qM, b |-> qb, Mat |-> qS],
+                    [Lambda |-> MkSeq(R, LAMBDA i : ID[i].inv), dSig |-> MkSeq(R, LAMBDA i : ID[i].det)],
+                    NextId, ExpectObj(c), 0, NoObj, NoObj))
+
+ACondSlice(i, idx, codeIdx) ==
+    LET c == heap[i] n == CondSlice(c, idx) IN
+    /\ IsCond(c)
+    /\ Emit(Append(heap, n), Step("Slice", [i |-> i, idx |-> codeIdx], NoObj, NextId, ExpectObj(n), 0, NoObj, NoObj))
+
+\* points / observations: integer vectors from the second vector menu (exact)
+PointMenu(d) == VEC2(d)
+
+ACondOnX(i, N, s, via) ==
+    LET c == heap[i] qX == Pick(PointMenu(CDx(c)), N, s)
+        n == CondOnX(c, MkSeq(N, LAMBDA k : QV(qX[k])))
+    IN /\ IsCond(c)
+       /\ Emit(Append(heap, n), Step("CondOnX", [i |-> i, x |-> qX, via |-> via], NoObj, NextId, ExpectObj(n), 0, NoObj, NoObj))
+
+ASetY(i, N, s) ==
+    LET c == heap[i] qY == Pick(PointMenu(CDy(c)), N, s)
+        n == SetY(c, MkSeq(N, LAMBDA k : QV(qY[k])))
+    IN /\ IsCond(c) /\ (CR(c) = 1 \/ CR(c) = N)
+       /\ Emit(Append(heap, n), Step("SetY", [i |-> i, y |-> qY], NoObj, NextId, ExpectObj(n), 0, NoObj, NoObj))
+
+ATransform(kind, i, j) ==
+    LET c == heap[i] p == heap[j]
+        n == CASE kind = "joint" -> Joint(c, p) [] kind = "marginal" -> MarginalT(c, p) [] kind = "conditional" -> CondT(c, p)
+    IN /\ IsCond(c) /\ IsPdf(p) /\ CDx(c) = NumD(p) /\ TransformOK(c, p)
+       /\ Emit(Append(heap, n), Step("Transform", [kind |-> kind, i |-> i, j |-> j], NoObj, NextId, ExpectObj(n), 0, NoObj, NoObj))
+
+\* the documented refusal: a batch on both sides
+ATransformRefused(kind, i, j) ==
+    LET c == heap[i] p == heap[j] IN
+    /\ IsCond(c) /\ IsPdf(p) /\ CDx(c) = NumD(p) /\ ~TransformOK(c, p)
+    /\ Emit(heap, Step("Transform", [kind |-> kind, i |-> i, j |-> j, raises |-> "RuntimeError"], NoObj, 0, NoObj, 0, NoObj, NoObj))
+
+\* c.integrate_log_conditional(q): q a density over (y, x); R_c = 1 or R_c = R_q
+AIntLogCond(i, j) ==
+    LET c == heap[i] q == heap[j] Rn == NumR(q) IN
+    /\ IsCond(c) /\ IsPdf(q) /\ NumD(q) = CDx(c) + CDy(c) /\ (CR(c) = 1 \/ CR(c) = Rn)
+    /\ IF IsIdCond(c.cls) /\ CR(c) # 1      \* documented: the identity-mean classes implement R = 1 only
+       THEN Emit(heap, Step("IntLogCond", [i |-> i, j |-> j, raises |-> "NotImplementedError"], NoObj, 0, NoObj, 0, NoObj, NoObj))
+       ELSE Emit(heap, Step("IntLogCond", [i |-> i, j |-> j], NoObj, 0, NoObj, 0, NoObj,
+                       [ln |-> MkSeq(Rn, LAMBDA k : IntLogCond(c, IF CR(c) = 1 THEN 1 ELSE k, q, k))]))
+
+\* c.integrate_log_conditional_y(p)(Y) or (p, y=Y); the R_p components are paired with the R_p rows of Y
+AIntLogCondY(i, j, s, via) ==
+    LET c == heap[i] p == heap[j] Rn == NumR(p)
+        qY == Pick(PointMenu(CDy(c)), Rn, s)
+    IN /\ IsCond(c) /\ IsPdf(p) /\ NumD(p) = CDx(c) /\ CR(c) = 1
+       /\ Emit(heap, Step("IntLogCondY", [i |-> i, j |-> j, y |-> qY, via |-> via], NoObj, 0, NoObj, 0, NoObj,
+                          [ln |-> MkSeq(Rn, LAMBDA k : IntLogCondY(c, 1, p, k, QV(qY[k])))]))
+
+AInfo(kind, i, j) ==
+    LET c == heap[i] p == heap[j] Rx == NumR(p) Rn == CR(c) * Rx IN
+    /\ IsCond(c) /\ IsPdf(p) /\ CDx(c) = NumD(p) /\ TransformOK(c, p)
+    /\ Emit(heap, Step("Info", [kind |-> kind, i |-> i, j |-> j], NoObj, 0, NoObj, 0, NoObj,
+                       [ln |-> MkSeq(Rn, LAMBDA k : IF kind = "conditional_entropy" THEN CondEntropy(c, TI(k, Rx))
+                                                     ELSE MutualInfo(c, TI(k, Rx), p, TJ(k, Rx)))]))
+
+AUpdateSigma(i, s) ==
+    LET c == heap[i] R == CR(c)
+        qS == Pick(IF IsDiagCond(c.cls) THEN DPD(CDy(c)) ELSE SPD(CDy(c)), R, s)
+        c1 == UpdateSigma(c, MkSeq(R, LAMBDA k : QM(qS[k])))
+    IN /\ IsCond(c)
+       /\ Emit(Put(i, c1), Step("UpdateSigma", [i |-> i, Sigma |-> qS], NoObj, 0, NoObj, i, ExpectObj(c1), NoObj))
+
+\* ------------------------------------------------------------------------
+\* Polynomial integrals: integrate(key, **coefficients)
+\* A coefficient spec (one per affine form) is a record
+\*   [mm |-> "none" | "shared" | "per", mat |-> sequence of exact menu matrices,
+\*    vm |-> "none" | "shared" | "per", vec |-> sequence of exact menu vectors]
+\* "none": argument omitted (identity matrix / zero vector); "shared": one 2-D matrix / 1-D vector for all
+\* components; "per": a 3-D / 2-D array with one slice per component.
+\* ------------------------------------------------------------------------
+EffMat(cs, r, d) == IF cs.mm = "none" THEN Eye(d) ELSE IF cs.mm = "shared" THEN QM(cs.mat[1]) ELSE QM(cs.mat[r])
+EffVec(cs, r, d) ==
+    IF cs.vm = "none" THEN ZeroVec(Rows(EffMat(cs, r, d)))
+    ELSE IF cs.vm = "shared" THEN QV(cs.vec[1]) ELSE QV(cs.vec[r])
+
+NoCoef == [mm |-> "none", mat |-> <<>>, vm |-> "none", vec |-> <<>>]
+
+AIntegrate(i, key, cA, cB, cC, cD) ==
+    LET o == heap[i] R == NumR(o) d == NumD(o)
+        o1 == AfterLogIntegral(o)
+        val(r) == LET T == Truth(o, r) IN
+                  ExpectExpr(key, T.mu, T.Sig, EffMat(cA, r, d), EffVec(cA, r, d), EffMat(cB, r, d), EffVec(cB, r, d),
+                             EffMat(cC, r, d), EffVec(cC, r, d), EffMat(cD, r, d), EffVec(cD, r, d))
+    IN /\ IsMeasure(o)
+       /\ Emit(Put(i, o1),
+               Step("Integrate", [i |-> i, key |-> key, A |-> cA, B |-> cB, C |-> cC, D |-> cD], NoObj, 0, NoObj, 0, NoObj,
+                    [ln |-> MkSeq(R, LAMBDA r : LnMass(o, r)), c |-> MkSeq(R, LAMBDA r : val(r))]))
+
+\* integrate("log u(x)", factor=f): R_f = 1 or R_f = R_u
+AIntegrateLogFactor(i, j) ==
+    LET o == heap[i] f == heap[j] R == NumR(o)
+        o1 == AfterLogIntegral(o)
+        J(r) == IF NumR(f) = 1 THEN 1 ELSE r
+    IN /\ IsMeasure(o) /\ NumD(o) = NumD(f) /\ (NumR(f) = 1 \/ NumR(f) = R)
+       /\ Emit(Put(i, o1),
+               Step("IntegrateLogFactor", [i |-> i, j |-> j], NoObj, 0, NoObj, 0, NoObj,
+                    [ln |-> MkSeq(R, LAMBDA r : LnMass(o, r)),
+                     c |-> MkSeq(R, LAMBDA r : LET T == Truth(o, r) IN ExpectLogFactorQ(f.Lam[J(r)], f.nu[J(r)], T.mu, T.Sig)),
+                     lnc |-> MkSeq(R, LAMBDA r : f.lnb[J(r)])]))
+
+\* ------------------------------------------------------------------------
 \* Properties that are meaningful in every state of every instance
 \* ------------------------------------------------------------------------
 \* C04: every populated cache of every live object equals the value derived
@@ -213,6 +418,163 @@ Inv_Slice ==
       /\ \A k \in 1..Len(idx) :
            LET r == (IF idx[k] < 0 THEN idx[k] + R ELSE idx[k]) + 1 IN
            SameFunctionC(n.Lam[k], n.nu[k], n.lnb[k], o.Lam[r], o.nu[r], o.lnb[r])
+
+\* ------------------------------------------------------------------------
+\* Densities and conditionals: the identities of C05 - C10, C13 on the lattice
+\* ------------------------------------------------------------------------
+IsAct(a) == hist # <<>> /\ Last.act = a
+Plus1(s) == [k \in 1..Len(s) |-> s[k] + 1]
+AllComps(o) == [k \in 1..NumR(o) |-> k]
+
+\* p_r(x) = cond_r(x_a | x_b) * marg_r(x_b) for all x (lattice), dy = coordinates of x_b, dx = of x_a
+ChainRule(p, r, dy, dx, marg, cond) ==
+    \A x \in Lattice2(NumD(p)) :
+        LNEq(LNAdd(CondLn(cond, r, TakeV(x, dy), TakeV(x, dx)), EvalLn(marg, r, TakeV(x, dy))), EvalLn(p, r, x))
+
+\* C05: the marginal is N(mu[dims], Sigma[dims, dims]) and is the integral of the joint over the other coordinates:
+\* together with the conditional of the remaining coordinates it factorises the joint, and that conditional has mass one.
+Inv_Marginal ==
+    IsAct("Marginal") =>
+      LET p == heap[Last.a.i] m == heap[Last.id] dims == Plus1(Last.a.dims) rest == Complement(NumD(p), dims) IN
+      /\ NumR(m) = NumR(p) /\ NumD(m) = Len(dims)
+      /\ \A r \in 1..NumR(p) :
+           /\ MEq(m.Sig[r], TakeM(Inv(p.Lam[r]), dims, dims))
+           /\ VEq(m.mu[r], TakeV(Truth(p, r).mu, dims))
+           /\ IF rest = <<>>
+              THEN \A x \in Lattice2(NumD(p)) : LNEq(EvalLn(m, r, TakeV(x, dims)), EvalLn(p, r, x))
+              ELSE ChainRule(p, r, dims, rest, m, ConditionOnExplicit(p, dims, rest))
+
+\* C06
+Inv_ConditionOn ==
+    (IsAct("ConditionOn") \/ IsAct("ConditionOnExplicit")) =>
+      LET p == heap[Last.a.i] c == heap[Last.id] dy == Plus1(Last.a.dy)
+          dx == IF Last.act = "ConditionOn" THEN Complement(NumD(p), dy) ELSE Plus1(Last.a.dx)
+          marg == Marginal(p, dy)
+      IN /\ CR(c) = NumR(p) /\ CDy(c) = Len(dx) /\ CDx(c) = Len(dy)
+         /\ CondCoherent(c)
+         /\ \A r \in 1..NumR(p) : ChainRule(p, r, dy, dx, marg, c)
+
+\* C05: linear image.  For square invertible W the density of y = W x + b is p(x) / |det W| (change of variables).
+Inv_LinearSum ==
+    IsAct("LinearSum") =>
+      LET p == heap[Last.a.i] n == heap[Last.id] IN
+      \A r \in 1..NumR(p) :
+        LET W == QM(Last.a.W[r])
+            b == IF Last.a.bmode = "none" THEN ZeroVec(Rows(W)) ELSE QV(Last.a.b[r]) IN
+        /\ MEq(n.Sig[r], MatMulT(MatMul(W, Inv(p.Lam[r])), W))
+        /\ VEq(n.mu[r], VAdd(MatVec(W, Truth(p, r).mu), b))
+        /\ Rows(W) = Cols(W) =>
+             \A x \in Lattice2(NumD(p)) :
+                LNEq(EvalLn(n, r, VAdd(MatVec(W, x), b)), LNSub(EvalLn(p, r, x), LNLn(DetL(W))))
+
+\* C13: closed forms equal the definitions through moments
+Inv_EntropyKL ==
+    /\ IsAct("Entropy") => LET p == heap[Last.a.i] IN \A r \in 1..NumR(p) : LNEq(EntropySem(p, r), EntropyClosed(p, r))
+    /\ IsAct("KL") => LET p == heap[Last.a.i] q == heap[Last.a.j] R1 == NumR(p) R2 == NumR(q) IN
+                      \A k \in 1..Max(R1, R2) :
+                         LET a == IF R1 = 1 THEN 1 ELSE k b == IF R2 = 1 THEN 1 ELSE k IN
+                         /\ LNEq(KLSem(p, a, q, b), KLClosed(p, a, q, b))
+                         /\ SemEq(Slice(p, <<a>>), Slice(q, <<b>>)) => LNEq(KLSem(p, a, q, b), LNZero)
+
+\* C12: update replaces exactly the addressed components, all fields consistently
+Inv_Update ==
+    IsAct("Update") =>
+      LET p == heap[Last.a.i] q == heap[Last.a.j] idx == Plus1(Last.a.idx) IN
+      /\ CacheCoherent(p) /\ IsNormalised(p)
+      /\ \A k \in 1..Len(idx) : SemEq(Slice(p, <<idx[k]>>), Slice(q, <<k>>))
+
+\* condition_on_x: component r*N+n is N(y; M_r x_n + b_r, Sigma_r)
+Inv_CondOnX ==
+    IsAct("CondOnX") =>
+      LET c == heap[Last.a.i] n == heap[Last.id] N == Len(Last.a.x) IN
+      /\ NumR(n) = CR(c) * N
+      /\ \A r \in 1..CR(c) : \A k \in 1..N : \A y \in Lattice2(CDy(c)) :
+            LNEq(EvalLn(n, (r - 1) * N + k, y), CondLn(c, r, QV(Last.a.x[k]), y))
+
+\* C10: set_y(y)(x) = N(y; M x + b, Sigma) including the normaliser; one component per observation
+Inv_SetY ==
+    IsAct("SetY") =>
+      LET c == heap[Last.a.i] f == heap[Last.id] N == Len(Last.a.y) IN
+      /\ NumR(f) = N
+      /\ \A k \in 1..N : \A x \in Lattice2(CDx(c)) :
+            LNEq(EvalLn(f, k, x), CondLn(c, IF CR(c) = 1 THEN 1 ELSE k, x, QV(Last.a.y[k])))
+
+XPart(z, dx) == MkVec(dx, LAMBDA a : z[a])
+YPart(z, dx, dy) == MkVec(dy, LAMBDA a : z[dx + a])
+
+\* C07 / C08 / C09
+Inv_Transform ==
+    (IsAct("Transform") /\ Last.id # 0) =>
+      LET c == heap[Last.a.i] p == heap[Last.a.j] n == heap[Last.id]
+          Rx == NumR(p) Rn == CR(c) * Rx dx == CDx(c) dy == CDy(c)
+          jnt == Joint(c, p) py == MarginalT(c, p) post == CondT(c, p)
+      IN
+      CASE Last.a.kind = "joint" ->
+             /\ NumR(n) = Rn /\ NumD(n) = dx + dy
+             /\ \A k \in 1..Rn : LET i == TI(k, Rx) j == TJ(k, Rx) IN
+                  /\ \A z \in Lattice2(dx + dy) :
+                        LNEq(EvalLn(n, k, z), LNAdd(CondLn(c, i, XPart(z, dx), YPart(z, dx, dy)), EvalLn(p, j, XPart(z, dx))))
+                  /\ MEq(JointLambdaInfo(c, i, p, j), n.Lam[k])
+                  /\ FEq(JointDetSchurSigma(c, i, p, j), n.dSig[k])
+                  /\ FEq(JointDetSchurLambda(c, i, p, j), n.dSig[k])
+        [] Last.a.kind = "marginal" ->
+             /\ SemEq(n, Marginal(jnt, [a \in 1..dy |-> dx + a]))
+             /\ \A k \in 1..Rn : LET i == TI(k, Rx) j == TJ(k, Rx) IN
+                  \A z \in Lattice2(dx + dy) :      \* p(x|y) p(y) = p(y|x) p(x)
+                     LNEq(LNAdd(CondLn(post, k, YPart(z, dx, dy), XPart(z, dx)), EvalLn(n, k, YPart(z, dx, dy))),
+                          LNAdd(CondLn(c, i, XPart(z, dx), YPart(z, dx, dy)), EvalLn(p, j, XPart(z, dx))))
+        [] Last.a.kind = "conditional" ->
+             /\ CR(n) = Rn /\ CondCoherent(n)
+             /\ \A k \in 1..Rn : LET i == TI(k, Rx) j == TJ(k, Rx) IN
+                  /\ \A z \in Lattice2(dx + dy) :
+                       LNEq(LNAdd(CondLn(n, k, YPart(z, dx, dy), XPart(z, dx)), EvalLn(py, k, YPart(z, dx, dy))),
+                            LNAdd(CondLn(c, i, XPart(z, dx), YPart(z, dx, dy)), EvalLn(p, j, XPart(z, dx))))
+                  \* invertibility, component by component
+                  /\ LET nk == CondSlice(n, <<k>>) pyk == Slice(py, <<k>>)
+                         back == CondT(nk, pyk) px == MarginalT(nk, pyk) IN
+                     /\ MEq(back.M[1], c.M[i]) /\ VEq(back.b[1], c.b[i]) /\ MEq(back.Sig[1], c.Sig[i])
+                     /\ SemEq(px, Slice(p, <<j>>))
+
+\* C13: conditional entropy and mutual information
+Inv_Info ==
+    IsAct("Info") =>
+      LET c == heap[Last.a.i] p == heap[Last.a.j] Rx == NumR(p) Rn == CR(c) * Rx
+          jnt == Joint(c, p) py == MarginalT(c, p) post == CondT(c, p) dx == CDx(c) dy == CDy(c)
+          yx == [a \in 1..(dx + dy) |-> IF a <= dy THEN dx + a ELSE a - dy]      \* reorder (x,y) -> (y,x)
+          jyx == Marginal(jnt, yx)
+      IN \A k \in 1..Rn : LET i == TI(k, Rx) j == TJ(k, Rx) IN
+           /\ LNEq(CondEntropy(c, i), LNSub(EntropySem(jnt, k), EntropySem(p, j)))      \* H(X,Y) - H(X)
+           /\ LNEq(CondEntropy(c, i), LNNeg(IntLogCond(c, i, jyx, k)))                  \* -E[ln p(y|x)]
+           /\ LNEq(MutualInfo(c, i, p, j),
+                   LNSub(LNAdd(EntropySem(p, j), EntropySem(py, k)), EntropySem(jnt, k)))   \* H(X)+H(Y)-H(X,Y)
+           /\ LNEq(MutualInfo(c, i, p, j), MutualInfo(post, k, py, k))                  \* roles swapped
+           /\ (\A a \in 1..dy : \A b \in 1..dx : c.M[i][a][b] = 0) => LNEq(MutualInfo(c, i, p, j), LNZero)
+
+\* C14: E_{p(x)}[ln p(y|x)] is the expectation under the model's own joint of ... consistency between the two integrals:
+\* integrating IntLogCondY over y ~ p(y|x)p(x) is not representable; instead both are tied to the same moment formula
+\* and IntLogCond under the model's own joint equals minus the conditional entropy (Inv_Info).
+Inv_UpdateSigma ==
+    IsAct("UpdateSigma") => CondCoherent(heap[Last.a.i])
+
+Inv_CondCoherent == \A i \in 1..Len(heap) : IsCond(heap[i]) => CondCoherent(heap[i])
+
+\* C03: coherence of the integration table with itself (independent rearrangements of the same Isserlis sums)
+Inv_IntegrateTable ==
+    IsAct("Integrate") =>
+      LET o == heap[Last.a.i] d == NumD(o) key == Last.a.key
+          E(k2, r, c1, c2, c3, c4) ==
+              LET T == Truth(o, r) IN
+              ExpectExpr(k2, T.mu, T.Sig, EffMat(c1, r, d), EffVec(c1, r, d), EffMat(c2, r, d), EffVec(c2, r, d),
+                         EffMat(c3, r, d), EffVec(c3, r, d), EffMat(c4, r, d), EffVec(c4, r, d))
+          cA == Last.a.A cB == Last.a.B cC == Last.a.C cD == Last.a.D
+      IN \A r \in 1..NumR(o) :
+           CASE key = "(Ax+a)'(Bx+b)" -> FEq(E(key, r, cA, cB, cC, cD), Trace(E("(Ax+a)(Bx+b)'", r, cA, cB, cC, cD)))
+             [] key = "(Ax+a)'(Bx+b)(Cx+c)'" -> VEq(E(key, r, cA, cB, cC, cD), E("(Ax+a)(Bx+b)'(Cx+c)", r, cC, cA, cB, cD))
+             [] key = "(Ax+a)'(Bx+b)(Cx+c)'(Dx+d)" ->
+                   FEq(E(key, r, cA, cB, cC, cD), Trace(E("(Ax+a)(Bx+b)'(Cx+c)(Dx+d)'", r, cA, cC, cD, cB)))
+             [] key = "x" -> VEq(E(key, r, cA, cB, cC, cD), Truth(o, r).mu)
+             [] key = "xx'" -> MEq(E(key, r, cA, cB, cC, cD), MAdd(Truth(o, r).Sig, Outer(Truth(o, r).mu, Truth(o, r).mu)))
+             [] OTHER -> TRUE
 
 \* the exporter: print the behaviour once it is complete (Done is defined by the MC module)
 Export(done) == done => PrintT(ToJson(hist))
